@@ -109,8 +109,12 @@ fn add(agg: &mut Agg, prop: &str, run_seed: u64, scen: &Scenario, r: &Report) {
         // is a violation of the property under check as well.
         let absorbed: &[&str] = match prop {
             "C13" => &["C01", "C02", "C05", "C06", "C07"],
-            "C11" | "C10" => &["C01", "C02", "C05"],
-            "C12" | "C09" => &["C01", "C02"],
+            "C10" => &["C01", "C02", "C05"],
+            "C11" => &["C01", "C02", "C05", "C12"],
+            // after a rejected / deferred attempt everything must go on as if it had never been
+            // made, including how later overlay commits are judged
+            "C12" => &["C01", "C02", "C11"],
+            "C09" => &["C01", "C02"],
             _ => &[],
         };
         let mut v = v.clone();
